@@ -126,7 +126,7 @@ impl Check for C10 {
         "C10"
     }
     fn rule(&self) -> String {
-        "editing programs against tough's real editor: a delegation tree of depth <=3 (fan-out <=2..3) whose roles hold 0..40 targets (sizes 0..32 KiB, names with spaces, non-ASCII, sub-directories, so delegated files are smaller and larger than targets.json), 1..3 keys of mixed algorithms and thresholds 1..3 per role, noise operations (add-then-remove, clear, replace, version set twice), both consistent-snapshot settings, copy or symlink publication, final signing with adequate or inadequate key sets; a later owner session on the written repository (replace / remove / re-add existing targets), signed with adequate keys or with too few for the edited role; optionally the cross-party flow with incoming metadata that is genuine, under-signed, carrying a duplicated signature, signed by the wrong keys, older, or genuine but listing a target outside the delegated paths; non-trivial = sign and write succeeded for a tree with at least one delegated role, or a hostile incoming document was offered; distinct = distinct canonical trace".into()
+        "editing programs against tough's real editor: a delegation tree of depth <=3 (fan-out <=2..3) whose roles hold 0..40 targets (sizes 0..32 KiB, names with spaces, non-ASCII, sub-directories, so delegated files are smaller and larger than targets.json), 1..3 keys of mixed algorithms and thresholds 1..3 per role, noise operations (add-then-remove, clear, replace, version set twice), both consistent-snapshot settings, copy or symlink publication, final signing with adequate or inadequate key sets; a later owner session on the written repository (replace / remove / re-add existing targets), signed with adequate keys or with too few for the edited role, the replaced files republished into the same targets directory with the editor's walker; optionally the cross-party flow with incoming metadata that is genuine, under-signed, carrying a duplicated signature, signed by the wrong keys, older, or genuine but listing a target outside the delegated paths; non-trivial = sign and write succeeded for a tree with at least one delegated role, or a hostile incoming document was offered; distinct = distinct canonical trace".into()
     }
     fn assumptions(&self) -> Vec<String> {
         vec![
@@ -462,6 +462,39 @@ impl Check for C10 {
                 };
                 let signed = ed.sign(&final_keys).await.map_err(|e| format!("sign: {}", variant(&e)))?;
                 signed.write(&meta3).await.map_err(|e| format!("write: {}", variant(&e)))?;
+                // the replaced targets are published again into the same targets directory with the
+                // editor's own walker (flat names; the walker matches on file names only), the way
+                // the first publication was done: keep what is there if it is right, replace it
+                // when the walker objects
+                let indir2 = dir.join("republish-in");
+                std::fs::create_dir_all(&indir2).map_err(|e| e.to_string())?;
+                let mut any = false;
+                for (ti, kind) in &u.ops {
+                    if let (Some(t), UpdKind::Replace | UpdKind::RemoveThenReAdd) = (rm.targets.get(*ti), kind) {
+                        if !t.name.contains('/') {
+                            std::fs::write(indir2.join(&t.name), newc(t).content()).map_err(|e| e.to_string())?;
+                            any = true;
+                        }
+                    }
+                }
+                if any {
+                    use tough::editor::signed::PathExists;
+                    let first = if sc.link { signed.link_targets(&indir2, &targets_dir, PathExists::Skip).await } else { signed.copy_targets(&indir2, &targets_dir, PathExists::Skip).await };
+                    if first.is_err() {
+                        // the walker refuses a destination that holds other content (by design,
+                        // whatever the replace behaviour): the publisher clears the old files of
+                        // those names and publishes again
+                        for (ti, kind) in &u.ops {
+                            if let (Some(t), UpdKind::Replace | UpdKind::RemoveThenReAdd) = (rm.targets.get(*ti), kind) {
+                                if !t.name.contains('/') && !sc.consistent {
+                                    let _ = std::fs::remove_file(targets_dir.join(&t.name));
+                                }
+                            }
+                        }
+                        let second = if sc.link { signed.link_targets(&indir2, &targets_dir, PathExists::Skip).await } else { signed.copy_targets(&indir2, &targets_dir, PathExists::Skip).await };
+                        second.map_err(|e| format!("republish: {}", variant(&e)))?;
+                    }
+                }
                 Ok(())
             });
             drain_blocking();
@@ -476,6 +509,10 @@ impl Check for C10 {
                     // publish the replaced contents the way the client will ask for them
                     for (ti, kind) in &u.ops {
                         if let (Some(t), UpdKind::Replace | UpdKind::RemoveThenReAdd) = (rm.targets.get(*ti), kind) {
+                            if !t.name.contains('/') {
+                                // published by the editor's walker inside the session
+                                continue;
+                            }
                             let c = newc(t).content();
                             let p = targets_dir.join(world::target_file_name(sc.consistent, &t.name, &c));
                             if let Some(parent) = p.parent() {
@@ -494,6 +531,19 @@ impl Check for C10 {
                             if let Some(m) = mism.first() {
                                 o.violate("update-session-result-differs-from-model", format!("{} mismatch(es), first: {m}", mism.len()));
                             } else {
+                                // the replaced targets download and verify from the re-published directory
+                                for (ti, kind) in &u.ops {
+                                    if let (Some(t), UpdKind::Replace | UpdKind::RemoveThenReAdd) = (rm.targets.get(*ti), kind) {
+                                        let want = newc(t).content();
+                                        let got = block_on(async { read_all(&r3, &t.name).await });
+                                        if got.as_ref().ok().and_then(|x| x.as_ref()) != Some(&want) {
+                                            o.violate(
+                                                "republished-target-does-not-read-back",
+                                                format!("the session reported success, but {:?} reads back as {:?}", t.name, got.as_ref().map(|x| x.as_ref().map(Vec::len))),
+                                            );
+                                        }
+                                    }
+                                }
                                 o.probe("owner_update_session_matches_model");
                             }
                         }
